@@ -7,6 +7,7 @@
  * Loops below run over literal lengths / QSTR_CAP only and are fully unwound (unwinding assertions on). */
 #ifndef C05_MODEL_B_H
 #define C05_MODEL_B_H
+#include <stdlib.h>
 typedef struct qsv { const quint16 *p; long n; } qsv;
 #define QSV(ptr, len) ((qsv){ (ptr), (len) })
 #define QSV_MAX 1048576L
@@ -31,6 +32,31 @@ static inline qsv qsv_mid(qsv s, long long pos)
 {
   long b = pos < 0 ? 0 : (pos > s.n ? s.n : (long)pos);   /* qBound(0, pos, size) */
   qsv r; r.p = s.p + b; r.n = s.n - b; return r;
+}
+/* QChar::isSpace(): U+0009..U+000D, U+0020, U+0085, U+00A0 and the Unicode space separators (Zs), line and paragraph separator */
+static inline bool qchar_isSpace(quint16 c)
+{
+  return (c >= 0x09 && c <= 0x0d) || c == 0x20 || c == 0x85 || c == 0xa0 || c == 0x1680 || (c >= 0x2000 && c <= 0x200a) || c == 0x2028 || c == 0x2029 || c == 0x202f || c == 0x205f || c == 0x3000;
+}
+long g_trim_k;   /* witness position for trimmed() */
+/* QStringView::trimmed(): a leading and b trailing code units are dropped; every dropped unit is a space (witness g_trim_k); what remains
+   neither starts nor ends with a space (an all-space string gives the empty view).  The result is presented as a view of its own buffer whose
+   first QSTR_CAP code units are those of the remaining text (every comparison in the lowered code looks at <= QSTR_CAP units, and no mechanism
+   name is longer): this keeps the reads of the caller's buffer at symbolic positions few. */
+static inline qsv qsv_trimmed(qsv s)
+{
+  long a = nondet_long(), b = nondet_long();
+  __CPROVER_assume(0 <= a && 0 <= b && a <= s.n && b <= s.n - a);
+  __CPROVER_assume(a + b == s.n || (!qchar_isSpace(s.p[a]) && !qchar_isSpace(s.p[s.n - b - 1])));
+  __CPROVER_assume(!(0 <= g_trim_k && g_trim_k < s.n && (g_trim_k < a || g_trim_k >= s.n - b)) || qchar_isSpace(s.p[g_trim_k]));
+  __CPROVER_assume((a == 0 || qchar_isSpace(s.p[0])) && (b == 0 || qchar_isSpace(s.p[s.n - 1])));   /* in particular: nothing is dropped from a text without spaces at its ends */
+  qsv r;
+  r.n = s.n - a - b;
+  quint16 *t = malloc(r.n * sizeof(quint16));
+  __CPROVER_assume(t != 0);
+  for (long i = 0; i < QSTR_CAP; i++) { if (i < r.n) __CPROVER_assume(t[i] == s.p[a + i]); }
+  r.p = t;
+  return r;
 }
 static inline void QStr_from(QStr *r, qsv s)
 {
